@@ -682,7 +682,15 @@ pub fn read_back(b: &Builders, u: &Universe, raw: &mut Vec<(String, String)>) ->
         if ds.is_empty() && at.is_empty() {
             continue;
         }
-        per_path.push((k, false, ds, at));
+        // `derives_on_specific_types()` may list a path once per map or once in total: only
+        // the union per path is compared (which map an entry lives in shows in the
+        // end-to-end read, through what the recursive flag does)
+        if let Some(e) = per_path.iter_mut().find(|e| e.0 == k) {
+            e.2.extend(ds);
+            e.3.extend(at);
+        } else {
+            per_path.push((k, false, ds, at));
+        }
     }
     per_path.sort();
     raw.push((
@@ -718,13 +726,18 @@ pub fn read_back(b: &Builders, u: &Universe, raw: &mut Vec<(String, String)>) ->
 }
 
 pub fn model_readback(m: &Model, u: &Universe) -> Readback {
-    let mut per_path = vec![];
+    let mut per_path: Vec<(String, bool, BTreeSet<String>, BTreeSet<String>)> = vec![];
     for map in [&m.specific, &m.recursive] {
         for (p, (d, a)) in map {
             if d.is_empty() && a.is_empty() {
                 continue;
             }
-            per_path.push((p.clone(), false, d.clone(), a.clone()));
+            if let Some(e) = per_path.iter_mut().find(|e| e.0 == *p) {
+                e.2.extend(d.iter().cloned());
+                e.3.extend(a.iter().cloned());
+            } else {
+                per_path.push((p.clone(), false, d.clone(), a.clone()));
+            }
         }
     }
     per_path.sort();
@@ -747,7 +760,7 @@ fn describe_diff(real: &Readback, model: &Readback) -> String {
     }
     if real.per_path != model.per_path {
         return format!(
-            "derives_on_specific_types (as multiset): real {:?} model {:?}",
+            "derives_on_specific_types (union per path): real {:?} model {:?}",
             real.per_path, model.per_path
         );
     }
@@ -878,7 +891,7 @@ fn registry_has_path(reg: &PortableRegistry, segs: &[String]) -> bool {
 }
 
 /// Judge validation + similar paths against expectations derived from the observed state.
-fn judge_c11(b: &Builders, u: &Universe, raw: &mut Vec<(String, String)>, stats: &mut Stats) -> Option<(String, String)> {
+fn judge_c11(b: &Builders, m: &Model, u: &Universe, raw: &mut Vec<(String, String)>, stats: &mut Stats) -> Option<(String, String)> {
     // observed builder state, per path: union over the (up to two) entries of that path
     let mut d_by_path: BTreeMap<String, BTreeSet<String>> = BTreeMap::new();
     let mut a_by_path: BTreeMap<String, BTreeSet<String>> = BTreeMap::new();
@@ -907,7 +920,8 @@ fn judge_c11(b: &Builders, u: &Universe, raw: &mut Vec<(String, String)>, stats:
             if !a_by_path[k].is_empty() {
                 want_a.insert(k.clone(), a_by_path[k].clone());
             }
-            if entries_per_path[k] > 1 {
+            // workload side: the history registered this unknown path specifically and recursively
+            if m.specific.contains_key(k) && m.recursive.contains_key(k) {
                 both_ways_unknown = true;
             }
         }
@@ -1026,6 +1040,10 @@ pub struct Stats {
     pub overwrites: u64,
     pub blocked_if_absent: u64,
     pub mid_batch_rejections: u64,
+    /// workload side: `extend` calls whose defective element comes after at least one valid one
+    pub extend_defect_after_prefix: u64,
+    /// workload side: calls generated per expected error kind
+    pub expected_kinds: BTreeMap<String, u64>,
     pub both_ways: u64,
     pub e2e_reads: u64,
     pub e2e_items_with_recursive: u64,
@@ -1083,6 +1101,16 @@ pub fn run_history(u: &Universe, hist: &[HOp], prop: Prop, perm_seed: u64) -> Hi
     };
     for (i, h) in hist.iter().enumerate() {
         stats.ops += 1;
+        match &h.expect {
+            Expect::Accept => {}
+            Expect::Reject(k) => *stats.expected_kinds.entry(k.name().to_string()).or_default() += 1,
+            Expect::ExtendReject { at, err } => {
+                *stats.expected_kinds.entry(err.name().to_string()).or_default() += 1;
+                if *at > 0 {
+                    stats.extend_defect_after_prefix += 1;
+                }
+            }
+        }
         let before = read_back(&b, u, &mut vec![]);
         // bookkeeping for reach
         match &h.op {
@@ -1199,7 +1227,7 @@ pub fn run_history(u: &Universe, hist: &[HOp], prop: Prop, perm_seed: u64) -> Hi
                     }
                 }
                 Prop::C11 => {
-                    if let Some(v) = judge_c11(&b, u, &mut raw, &mut stats) {
+                    if let Some(v) = judge_c11(&b, &m, u, &mut raw, &mut stats) {
                         violation = Some(v);
                         break;
                     }
@@ -1668,6 +1696,10 @@ pub fn check(ctx: &Ctx, prop: Prop) -> i32 {
         agg.overwrites += s.overwrites;
         agg.blocked_if_absent += s.blocked_if_absent;
         agg.mid_batch_rejections += s.mid_batch_rejections;
+        agg.extend_defect_after_prefix += s.extend_defect_after_prefix;
+        for (k, v) in &s.expected_kinds {
+            *agg.expected_kinds.entry(k.clone()).or_default() += v;
+        }
         agg.both_ways += s.both_ways;
         agg.e2e_reads += s.e2e_reads;
         agg.e2e_items_with_recursive += s.e2e_items_with_recursive;
@@ -1702,14 +1734,17 @@ pub fn check(ctx: &Ctx, prop: Prop) -> i32 {
             }
         }
     }
-    // reach probes that must not be zero
-    if runs >= 5000 {
+    // reach probes that must not be zero. They are measured on the workload side (what was
+    // generated and what the reference model says), never on what the implementation chose to
+    // do, so that a behaviour-preserving implementation cannot drive them to zero; and they are
+    // only consulted when no violation was found (a violation is the verdict).
+    if runs >= 5000 && violations.is_empty() {
         let mut zero = vec![];
         if prop == Prop::C16 {
             for (k, v) in [
                 ("overwrites", agg.overwrites),
                 ("blocked insert_if_not_exists", agg.blocked_if_absent),
-                ("mid-batch rejections", agg.mid_batch_rejections),
+                ("extend with a defect after a valid prefix", agg.extend_defect_after_prefix),
                 ("path registered both ways", agg.both_ways),
                 ("end-to-end reads", agg.e2e_reads),
             ] {
@@ -1724,7 +1759,7 @@ pub fn check(ctx: &Ctx, prop: Prop) -> i32 {
                 "InvalidFromType",
                 "InvalidToType",
             ] {
-                if !agg.outcomes.keys().any(|o| o.ends_with(k)) {
+                if agg.expected_kinds.get(k).copied().unwrap_or(0) == 0 {
                     zero.push(k);
                 }
             }
@@ -1773,7 +1808,9 @@ pub fn check(ctx: &Ctx, prop: Prop) -> i32 {
         coverage["reach"] = json!({
             "overwrites_of_an_existing_rule": agg.overwrites,
             "insert_if_not_exists_blocked_by_existing_rule": agg.blocked_if_absent,
-            "extend_rejected_after_applying_a_prefix": agg.mid_batch_rejections,
+            "extend_calls_with_a_defect_after_a_valid_prefix": agg.extend_defect_after_prefix,
+            "of_those_the_implementation_applied_the_prefix (informational; an atomic extend gives 0)": agg.mid_batch_rejections,
+            "invalid_calls_generated_per_expected_kind": agg.expected_kinds,
             "path_registered_specifically_and_recursively": agg.both_ways,
             "full_readbacks_compared_with_model": agg.reads,
             "end_to_end_reads (flatten+generate+parse)": agg.e2e_reads,
